@@ -57,8 +57,8 @@ func (c *VCtx) observeWith(st *State, before *State) {
 	n := c.fresh("now", SInt)
 	c.fact(Ge(n, old))
 	st.heaps["G:now"] = n
-	c.stableFacts(before, st)
 	c.sharedHavoc(st, before)
+	c.stableFacts(before, st)
 }
 
 // stableFacts: predicates declared stable for monitors whose lock is held survive the passage of time
@@ -741,6 +741,9 @@ func (c *VCtx) selectInstr(fr *Frame, st *State, x *ssa.Select) Val {
 			c.fact(Implies(And(st.pc, chosen), Not(Eq(ch, Null))))
 		}
 		out = append(out, c.freshVal("selv", et))
+		// ghost: count the receive on the chosen channel
+		rh := c.heap(st, "G:recvs", ArrSort(SRef, SInt))
+		c.setHeap(st, "G:recvs", Ite(chosen, Store(rh, ch, Add(Select(rh, ch), IntLit(1))), rh))
 	}
 	if !x.Blocking {
 		// default taken only if no close-only channel is ready
